@@ -3,6 +3,7 @@ package main
 // Value shapes: how Go types are flattened into SMT leaves.
 
 import (
+	"regexp"
 	"fmt"
 	"go/types"
 	"math/big"
@@ -150,9 +151,18 @@ func (m Mode) leafSort(t types.Type) string {
 	return ""
 }
 
+var aliasRe = regexp.MustCompile(`\b(byte|rune)\b`)
+
+// typeKey: canonical name of a type (byte/rune aliases normalised so that []byte and []uint8
+// share one array heap).
 func typeKey(t types.Type) string {
 	s := types.TypeString(t, func(p *types.Package) string { return p.Name() })
-	return s
+	return aliasRe.ReplaceAllStringFunc(s, func(m string) string {
+		if m == "byte" {
+			return "uint8"
+		}
+		return "int32"
+	})
 }
 
 // leafPath enumerates leaves of type t: calls f(path, leafType, kind) where path is a
